@@ -126,7 +126,7 @@ def optRecord (toks : Array String) : String := Id.run do
       if !(allInBox n loE hiE evalPts) then fails := fails ++ ["exc.evalbox"]
       if alg != .cmaes && !(inBox n loE hiE xret) then fails := fails ++ ["exc.leftbox"]
     if isDescent alg then
-      if !(notWorse (P.F xret) (P.F start) 0) then fails := fails ++ ["exc.descent"]
+      if !(notWorse (P.F xret) (P.F start) (rq 1 10000000000 * (1 + absR (P.F start)))) then fails := fails ++ ["exc.descent"]
   -- wrapper logic: which user virtuals are reachable
   if alg == .cmaes then
     if nGrad + nJac != 0 then fails := fails ++ ["cmaesCallsDerivatives"]
